@@ -93,7 +93,7 @@ def _sx_worker(ob: Obligation, twin: bool, known: List[Dict[str, Any]], conn: An
             if known:
                 keep = []
                 for f in failures:
-                    if any(re.search(k['reason'], f) for k in known):
+                    if any(re.search(k['reason'], f) and _when(k, ctx.vars) for k in known):
                         with NoTracing():
                             khits.append(f)
                     else:
@@ -216,11 +216,19 @@ def load_known(pid: str) -> List[Dict[str, Any]]:
     return [f for f in data.get('findings', []) if f['property'] == pid and f.get('status', 'open') == 'open']
 
 
-def match_known(known: List[Dict[str, Any]], ob: Obligation, failures: List[str]) -> Optional[Dict[str, Any]]:
+def _when(k: Dict[str, Any], values: Dict[str, Any]) -> Any:
+    """Optional witness predicate of a known finding (a Python expression over the obligation's variables)."""
+    expr = k.get('when')
+    if not expr:
+        return True
+    return eval(expr, {'__builtins__': {}}, dict(values))  # noqa: S307 - expression comes from the committed findings file
+
+
+def match_known(known: List[Dict[str, Any]], ob: Obligation, failures: List[str], values: Optional[Dict[str, Any]] = None) -> Optional[Dict[str, Any]]:
     for k in known:
         if not re.search(k['obligation'], ob.oid):
             continue
-        if failures and all(re.search(k['reason'], f) for f in failures):
+        if failures and all(re.search(k['reason'], f) for f in failures) and _when(k, values or {}):
             return k
     return None
 
@@ -299,7 +307,7 @@ def run_property(
             row['sym_failures'] = wit.get('failures')
             row['replay_failures'] = rp.get('failures')
             if rp.get('failures'):
-                k = match_known(known, ob, rp['failures'])
+                k = match_known(known, ob, rp['failures'], values)
                 if k is not None:
                     row['verdict'] = 'known-finding'
                     known_hits.append({'finding': k, 'ob': ob, 'values': values, 'failures': rp['failures']})
@@ -333,7 +341,7 @@ def run_property(
                 wit = res.get('witness') or {}
                 values = wit.get('values', wit)
                 rp = replay_native(module, ob.oid, values)
-                fails = [f for f in (rp.get('failures') or []) if not re.search(k['reason'], f)]
+                fails = [f for f in (rp.get('failures') or []) if not (re.search(k['reason'], f) and _when(k, values))]
                 row['witness'] = values
                 row['replay_failures'] = fails
                 if fails:
